@@ -249,6 +249,9 @@ func (fs *FS) Remove(name string) error {
 		return fs.wrapperErr("remove", name, err)
 	}
 
+	if name == "." {
+		return fs.wrapperErr("remove", name, hackpadfs.ErrPermission)
+	}
 	if file.Mode().IsDir() {
 		dirNames, err := file.ReadDirNames()
 		if err != nil {
